@@ -32,7 +32,7 @@ ASSUMPTIONS = ['slices are the resolved form every caller passes: 0 <= start < s
                'X values and spacing are exactly representable in codes 68/73, frame spacing units equal the depth units',
                'the empty channel subset is exercised for explicit-X log passes (the X channel alone is loaded); with implied X an empty subset reads nothing and is not asserted']
 SHARDS = {'quick': 4, 'thorough': 16}
-REQUIRED_CLASSES = {'implied-x': 1, 'explicit-x': 1, 'load-step>1': 1, 'load-spans>=2-records': 1, 'channel-subset-with-gap': 1,
+REQUIRED_CLASSES = {'implied-x': 1, 'implied-x-in-units-unknown-to-the-unit-table': 1, 'explicit-x': 1, 'load-step>1': 1, 'load-spans>=2-records': 1, 'channel-subset-with-gap': 1,
                     'short-last-record': 1, 'multi-sample-channel': 1, 'dipmeter-channel': 1, 'tif': 1, '>=2-log-passes': 1,
                     'load-enters-record-after-first-frame': 1, 'up-log': 1, 'empty-channel-subset': 1,
                     'type-0-and-type-1-log-pass-interleaved': 1, 'log-pass-without-data-records': 1}
@@ -108,6 +108,7 @@ class FileState:
         for pm in self.passes:
             lp = pm.lp
             cc.cls('implied-x', lp['indirect'])
+            cc.cls('implied-x-in-units-unknown-to-the-unit-table', lp['indirect'] and bytes(lp['units']) in (b'SEC ', b'MTR ', b'HRS ', b'DEG '))
             cc.cls('explicit-x', not lp['indirect'])
             cc.cls('up-log', lp['xs']['up_down'] == 1)
             cc.cls('short-last-record', len(lp['per_record']) >= 2 and lp['per_record'][-1] < lp['per_record'][0])
@@ -281,7 +282,7 @@ class LoadMachine(HistoryMachine):
     START = staticmethod(start)
     STEP = staticmethod(step)
 
-    @initialize(init=G.lis_files(max_frames=50, pairs=True, empty_passes=True))
+    @initialize(init=G.lis_files(max_frames=50, pairs=True, empty_passes=True, x_units=G.X_UNITS_WITH_UNKNOWN))
     def init(self, init):
         self.begin(init)
 
